@@ -76,13 +76,14 @@ def findingOf (s f : String) : Option String :=
     fields a read of the field is a use of what it points to) happens with the named mutex held —
     exclusively when writing.  (struct, field, mutex) -/
 def requiredCoverage : List (String × String × String × List String) := [
-  ("quotaresource.quota", "allowedByReqID", "mutex", ["Inc", "Allowed", "Dec"]),
+  ("quotaresource.quota", "allowedByReqID", "mutex", ["Inc", "refund", "Allowed", "Dec"]),
+  ("quotaresource.quota", "chargedByReqID", "mutex", ["Inc", "refund", "Allowed", "Dec"]),
   ("quotaresource.concurrentStrategy", "allowedReq", "mutex", []),
   -- the plain Get/Set/Pop/Exists delegates rely on the context's own lock; the read-modify-write
   -- operations of the quota strategies must be atomic under the state's mutex:
   ("lunarcontext.memoryState", "contextMemory", "mutex",
      ["AtomicIncWindow", "AtomicWindowReset", "AtomicWindowResetIn", "AtomicSAddWithMaxValuesAllowed",
-      "AtomicIncr", "AtomicDecr"]),
+      "AtomicIncr", "AtomicDecrBy", "SRem"]),
   -- get-or-create of the per-key state/queue must be ONE critical section (look up, create, store):
   ("limit.RateLimitState", "groupsStateByLimiter", "mutex", ["getLimiterState"]),
   ("remedies.StrategyBasedQueuePlugin", "queues", "queuesMutex", ["OnRequest"]),
